@@ -2,7 +2,7 @@
 from props.common import *
 
 ALLOC_SRCS = [('pdmemory.c', ['-Dstatic=']), 'pmemory.c', ('util.c', ['-Dsuperlu_abort_and_exit=real_superlu_abort_and_exit'])]
-OPS = {1: 'user_malloc', 2: 'user_free', 3: 'WorkInit', 4: 'WorkFree-while-others-live', 5: 'expand-first-allocation', 6: 'WorkFree-last-thread'}
+OPS = {1: 'user_malloc', 2: 'user_free', 3: 'WorkInit', 4: 'WorkFree-while-others-live', 5: 'expand-first-allocation', 6: 'WorkFree-last-thread', 7: 'SetupSpace-from-any-state'}
 
 def alloc_query(pid, op, size=64, timeout=900):
     q = Query('%s.alloc.%s.size%d' % (pid, OPS[op], size), 'alloc_h.c', ALLOC_SRCS, defs={'OP': op, 'SIZE': size}, engine='sat',
